@@ -27,6 +27,10 @@ def _prio_ops(ctx):
 
 
 def run(ctx):
+    from ..report import Sub
+    from . import c01
+    if not isinstance(ctx, Sub):
+        c01._promo_rules(Sub(ctx, "C01", only=["C01.R4"]))   # the evaluator converts to expr.typ: the type semantics assigns is its premise
     ctx.rule("C27.R1", "the evaluator has an entry for every operator the parser can put in a constant expression", floor=20)
     ctx.rule("C27.R2", "each entry has the C meaning of its operator; / and % truncate toward zero", floor=15)
     ctx.rule("C27.R3", "every computed integer value is converted to the type of its expression (modulo 2^N, by signedness) before it is returned", floor=5)
